@@ -73,6 +73,7 @@ interpolate_buffer(const char *str, struct buffer *bf,
 {
 	struct interpolate_context c = {
 		.arg	= arg,
+		.path	= arg->path,
 		.lno	= arg->lno,
 		.flags	= arg->flags,
 	};
